@@ -60,6 +60,8 @@ type fakeGCS struct {
 	script   map[string][]string
 	pageSize int
 	sessions map[string]string // resumable upload id -> "bucket/name"
+	// delAnswers: how the k-th DELETE request is treated, whatever its object (normal | refuse | lost); used up: normal
+	delAnswers []string
 }
 
 func newFakeGCS() *fakeGCS {
@@ -306,6 +308,15 @@ func (f *fakeGCS) meta(w http.ResponseWriter, bucket, name string) {
 
 func (f *fakeGCS) delete(w http.ResponseWriter, bucket, name string) {
 	o := f.next("DELETE", name)
+	if len(f.delAnswers) > 0 {
+		switch f.delAnswers[0] {
+		case "refuse":
+			o = "403"
+		case "lost":
+			o = "lost"
+		}
+		f.delAnswers = f.delAnswers[1:]
+	}
 	if o != "" && o != "lost" {
 		st, _ := strconv.Atoi(o)
 		gcsError(w, st)
